@@ -28,7 +28,7 @@ Proof.
     destruct (q_msg r0) eqn:Em;
       rewrite ?pre_start_workflow, ?pre_complete_workflow, ?pre_cancel_workflow, ?pre_start_stage, ?pre_complete_stage,
               ?pre_skip_stage, ?pre_cancel_stage, ?pre_start_task, ?pre_complete_task, ?pre_signal, ?pre_jump,
-              ?pre_pause_task, ?pre_resume_stage, ?pre_restart_stage in Hp; try discriminate.
+              ?pre_pause_task, ?pre_resume_stage, ?pre_restart_stage, ?pre_continue_parent in Hp; try discriminate.
     apply pre_run_task in Hp. destruct Hp as [Hc [Hpp [st [tk [G1 [G2 [G3 _]]]]]]]. subst p.
     exists s0, t, st, tk. repeat split; try assumption. apply run_task_guard_spec. exact G3. }
   destruct a; simpl; try (left; reflexivity).
@@ -77,7 +77,7 @@ Definition completed_kept (a b : state) : Prop :=
   forall i st, get_stage a i = Some st ->
     exists st', get_stage b i = Some st' /\
       (is_complete (s_status st) = true -> s_status st' = s_status st) /\
-      length (s_tasks st') = length (s_tasks st) /\
+      length (s_tasks st) <= length (s_tasks st') /\
       (forall t tk, nth_error (s_tasks st) t = Some tk -> exists tk', nth_error (s_tasks st') t = Some tk' /\
          (is_complete (t_status tk) = true -> t_status tk' = t_status tk)).
 
@@ -90,33 +90,25 @@ Proof.
   - intros Hc. rewrite H3; rewrite (H1 Hc); [reflexivity|exact Hc].
   - intros i st Hs. destruct (H2 i st Hs) as [st' [Hs' [Hst [Hl Ht]]]].
     destruct (H4 i st' Hs') as [st'' [Hs'' [Hst' [Hl' Ht']]]].
-    exists st''. split; [exact Hs''|]. split; [|split; [congruence|]].
+    exists st''. split; [exact Hs''|]. split; [|split; [lia|]].
     + intros Hc. rewrite Hst'; rewrite (Hst Hc); [reflexivity|exact Hc].
     + intros t tk Hn. destruct (Ht t tk Hn) as [tk' [Hn' Hk]]. destruct (Ht' t tk' Hn') as [tk'' [Hn'' Hk']].
       exists tk''. split; [exact Hn''|]. intros Hc. rewrite Hk'; rewrite (Hk Hc); [reflexivity|exact Hc].
 Qed.
 
-Lemma Forall2_nth {A B} (R : A -> B -> Prop) l l' : Forall2 R l l' ->
-  forall i x, nth_error l i = Some x -> exists y, nth_error l' i = Some y /\ R x y.
-Proof.
-  intros H. induction H; intros [|i] z Hn; simpl in *; try discriminate.
-  - inversion Hn; subst. eauto.
-  - apply IHForall2. exact Hn.
-Qed.
-
-Lemma Forall2_length' {A B} (R : A -> B -> Prop) l l' : Forall2 R l l' -> length l = length l'.
-Proof. intros H. induction H; simpl; congruence. Qed.
+Lemma grows_length {A} (R : A -> A -> Prop) F l l' : grows R F l l' -> length l <= length l'.
+Proof. induction 1; simpl; lia. Qed.
 
 Lemma legal_completed_kept a b :
   legal (w_stages a) (w_status a) (w_stages b) (w_status b) -> completed_kept a b.
 Proof.
   intros [Hs Hw]. split.
   - intros Hc. symmetry. apply (completed_final _ _ Hc Hw).
-  - intros i st Hn. destruct (Forall2_nth _ _ _ Hs i st Hn) as [st' [Hn' [H1 H2]]].
+  - intros i st Hn. destruct (grows_nth _ _ _ _ _ _ Hs Hn) as [st' [Hn' [H1 H2]]].
     exists st'. split; [exact Hn'|]. split; [|split].
     + intros Hc. symmetry. apply (completed_final _ _ Hc H1).
-    + symmetry. apply (Forall2_length' _ _ _ H2).
-    + intros t tk Ht. destruct (Forall2_nth _ _ _ H2 t tk Ht) as [tk' [Ht' L]].
+    + apply (grows_length _ _ _ _ H2).
+    + intros t tk Ht. destruct (grows_nth _ _ _ _ _ _ H2 Ht) as [tk' [Ht' L]].
       exists tk'. split; [exact Ht'|]. intros Hc. symmetry. apply (completed_final _ _ Hc L).
 Qed.
 
